@@ -10,6 +10,15 @@
 //   - schemaTypes:  every type of package types that declares at least one of the eight modifier methods, with the
 //     sorted list of those it declares itself
 //   - harnessTypes: the schema types the harness table builds (reflect.TypeOf(entry.mk()), generics stripped)
+//   - pmcFirst*:    processModifiersCore's FIRST statement in full (round 4c, audit A M10): condition, printed body, whether
+//     it has an else, the identifiers it mentions — the non-nil branch returns before any modifier field is read
+//   - isNilInputIdents: the identifiers isNilInput mentions (it is handed the input only)
+//   - modifierReads: every read of a modifier field (Optional, Nilable, NonOptional, ExactOptional, DefaultValue,
+//     DefaultFunc, PrefaultValue, PrefaultFunc, or through IsOptional()/IsNilable()/IsNonOptional()/IsExactOptional())
+//     in internal/engine (non-test files): file, function, field, guard — guard is
+//     `pmc-after-nonnil-return` (in processModifiersCore, after its first statement), `nil-guarded` (under an `if` one of whose
+//     top-level conjuncts is isNilInput(input)), `nonnil-guarded` (… is !isNilInput(input)), or `unguarded`
+//   - resolveDefaultCallers: the functions of internal/engine that call resolveDefault
 package main
 
 import (
@@ -27,6 +36,89 @@ import (
 )
 
 type site struct{ file, fn, field, kind string }
+
+var modifierFields = map[string]bool{"Optional": true, "Nilable": true, "NonOptional": true, "ExactOptional": true,
+	"DefaultValue": true, "DefaultFunc": true, "PrefaultValue": true, "PrefaultFunc": true,
+	"IsOptional": true, "IsNilable": true, "IsNonOptional": true, "IsExactOptional": true}
+
+// conjuncts splits a condition at its top-level `&&`s.
+func conjuncts(e ast.Expr) []ast.Expr {
+	e = ast.Unparen(e)
+	if b, ok := e.(*ast.BinaryExpr); ok && b.Op == token.LAND {
+		return append(conjuncts(b.X), conjuncts(b.Y)...)
+	}
+	return []ast.Expr{e}
+}
+
+// modifierReadsOf lists the modifier-field reads of one function body with the guard each stands under.
+func modifierReadsOf(fset *token.FileSet, rel, fn string, body *ast.BlockStmt, isPMC bool) []site {
+	var out []site
+	var walk func(n ast.Node, guard string)
+	walk = func(n ast.Node, guard string) {
+		if n == nil {
+			return
+		}
+		switch v := n.(type) {
+		case *ast.IfStmt:
+			g := guard
+			walk(v.Init, guard)
+			// a conjunct isNilInput(input) / !isNilInput(input) guards the conjuncts to its right and the body
+			for _, c := range conjuncts(v.Cond) {
+				switch show(fset, c) {
+				case "isNilInput(input)":
+					if g == "unguarded" {
+						g = "nil-guarded"
+					}
+					continue
+				case "!isNilInput(input)":
+					if g == "unguarded" {
+						g = "nonnil-guarded"
+					}
+					continue
+				}
+				walk(c, g)
+			}
+			walk(v.Body, g)
+			walk(v.Else, guard) // the else branch is not under the guard (its negation is not tracked: stays as outside)
+			return
+		case *ast.SelectorExpr:
+			if modifierFields[v.Sel.Name] {
+				out = append(out, site{rel, fn, v.Sel.Name, guard})
+			}
+		}
+		ast.Inspect(n, func(m ast.Node) bool {
+			if m == n || m == nil {
+				return true
+			}
+			walk(m, guard)
+			return false
+		})
+	}
+	for i, st := range body.List {
+		g := "unguarded"
+		if isPMC && i > 0 {
+			g = "pmc-after-nonnil-return"
+		}
+		walk(st, g)
+	}
+	return out
+}
+
+func identsOf(n ast.Node) []string {
+	seen := map[string]bool{}
+	ast.Inspect(n, func(m ast.Node) bool {
+		if id, ok := m.(*ast.Ident); ok {
+			seen[id.Name] = true
+		}
+		return true
+	})
+	var out []string
+	for k := range seen {
+		out = append(out, k)
+	}
+	sort.Strings(out)
+	return out
+}
 
 var modifierMethods = map[string]bool{"Optional": true, "Nilable": true, "Nullish": true, "NonOptional": true,
 	"Default": true, "DefaultFunc": true, "Prefault": true, "PrefaultFunc": true}
@@ -113,6 +205,9 @@ func runGen(repo, outDir string) error {
 	var ctxFields []string
 	var sites []site
 	var pmc []string
+	pmcFirstCond, pmcFirstElse := "", false
+	var pmcFirstBody, pmcFirstIdents, isNilIdents, rdCallers []string
+	var modReads []site
 	pmBodies := map[string]string{}
 	typeMethods := map[string]map[string]bool{}
 	for _, p := range files {
@@ -154,9 +249,37 @@ func runGen(repo, outDir string) error {
 				if d.Body == nil {
 					continue
 				}
+				if strings.HasPrefix(rel, "internal/engine/") {
+					modReads = append(modReads, modifierReadsOf(fset, rel, fn, d.Body, rel == "internal/engine/modifiers.go" && d.Name.Name == "processModifiersCore")...)
+					if d.Name.Name == "isNilInput" {
+						isNilIdents = identsOf(d.Body)
+					}
+					calls := false
+					ast.Inspect(d.Body, func(n ast.Node) bool {
+						if c, ok := n.(*ast.CallExpr); ok {
+							if id, ok := c.Fun.(*ast.Ident); ok && id.Name == "resolveDefault" {
+								calls = true
+							}
+						}
+						return true
+					})
+					if calls {
+						rdCallers = append(rdCallers, fn)
+					}
+				}
 				if rel == "internal/engine/modifiers.go" {
 					switch d.Name.Name {
 					case "processModifiersCore":
+						if len(d.Body.List) > 0 {
+							if first, ok := d.Body.List[0].(*ast.IfStmt); ok && first.Init == nil {
+								pmcFirstCond = show(fset, first.Cond)
+								for _, st := range first.Body.List {
+									pmcFirstBody = append(pmcFirstBody, show(fset, st))
+								}
+								pmcFirstElse = first.Else != nil
+								pmcFirstIdents = identsOf(first)
+							}
+						}
 						for _, st := range d.Body.List {
 							switch s := st.(type) {
 							case *ast.IfStmt:
@@ -274,6 +397,29 @@ func runGen(repo, outDir string) error {
 	if len(typeMethods) == 0 {
 		return fmt.Errorf("types/*.go: no modifier methods found")
 	}
+	if pmcFirstCond == "" {
+		return fmt.Errorf("internal/engine/modifiers.go: processModifiersCore does not start with a plain `if`")
+	}
+	if len(isNilIdents) == 0 {
+		return fmt.Errorf("internal/engine: isNilInput not found")
+	}
+	if len(modReads) < 8 {
+		return fmt.Errorf("internal/engine: only %d reads of modifier fields found", len(modReads))
+	}
+	sort.Slice(modReads, func(i, j int) bool {
+		a, b := modReads[i], modReads[j]
+		return a.file+"\x00"+a.fn+"\x00"+a.field+"\x00"+a.kind < b.file+"\x00"+b.fn+"\x00"+b.field+"\x00"+b.kind
+	})
+	{
+		d := modReads[:0]
+		for i, x := range modReads {
+			if i == 0 || x != modReads[i-1] {
+				d = append(d, x)
+			}
+		}
+		modReads = d
+	}
+	sort.Strings(rdCallers)
 	sort.Slice(sites, func(i, j int) bool {
 		a, b := sites[i], sites[j]
 		return a.file+"\x00"+a.fn+"\x00"+a.field+"\x00"+a.kind < b.file+"\x00"+b.fn+"\x00"+b.field+"\x00"+b.kind
@@ -298,6 +444,22 @@ func runGen(repo, outDir string) error {
 		}
 		return q
 	}(), ",\n  ") + "]\n\n")
+	b.WriteString("/-- processModifiersCore's first statement in full: condition, printed body, has-else, identifiers mentioned -/\n")
+	b.WriteString("def pmcFirstCond : String := " + leanStr(pmcFirstCond) + "\n")
+	b.WriteString("def pmcFirstBody : List String := " + leanList(pmcFirstBody) + "\n")
+	b.WriteString(fmt.Sprintf("def pmcFirstHasElse : Bool := %v\n", pmcFirstElse))
+	b.WriteString("def pmcFirstIdents : List String := " + leanList(pmcFirstIdents) + "\n")
+	b.WriteString("/-- the identifiers isNilInput mentions -/\ndef isNilInputIdents : List String := " + leanList(isNilIdents) + "\n")
+	b.WriteString("/-- the functions of internal/engine that call resolveDefault -/\ndef resolveDefaultCallers : List String := " + leanList(rdCallers) + "\n\n")
+	b.WriteString("/-- every read of a modifier field in internal/engine: file, function, field, guard (`kind`) -/\ndef modifierReads : List Site := [\n")
+	for i, s := range modReads {
+		sep := ","
+		if i == len(modReads)-1 {
+			sep = ""
+		}
+		fmt.Fprintf(&b, "  ⟨%s, %s, %s, %s⟩%s\n", leanStr(s.file), leanStr(s.fn), leanStr(s.field), leanStr(s.kind), sep)
+	}
+	b.WriteString("]\n\n")
 	b.WriteString("def processModifiersBody : String := " + leanStr(pmBodies["processModifiers"]) + "\n")
 	b.WriteString("def processModifiersStrictBody : String := " + leanStr(pmBodies["processModifiersStrict"]) + "\n\n")
 	var tns []string
